@@ -534,7 +534,9 @@ def whole_contigs_in(outs, contigs, pred):
 
 
 # ---------------------------------------------------------------- C10 naming oracle
-def names_ok(outs, ba, prefix="SUPER_", unloc_length_order=True, only_unloc_length_order=False):
+def names_ok(outs, ba, prefix="SUPER_", unloc_length_order=True, only_unloc_length_order=False, decider=None):
+    """decider: in multi-haplotype maps the key of the haplotype whose sizes rank the
+    chromosomes (the first one in the map); None = every curated assembly ranks by its own sizes"""
     ok = True
     for key, asm in outs.items():
         names = [s.name for s in asm.scaffolds]
@@ -601,7 +603,7 @@ def names_ok(outs, ba, prefix="SUPER_", unloc_length_order=True, only_unloc_leng
             if k[1] in ("", "A"):
                 totals[k[0]] = ISUM([ent["chr"].fragments_length] + [u.fragments_length for u in ent["unloc"].values()])
         for a in range(1, len(nums)):
-            if a in totals and a + 1 in totals:
+            if a in totals and a + 1 in totals and (decider is None or key == decider):
                 ok = AND(ok, totals[a] >= totals[a + 1])     # ranked by sequence length, chromosome plus its unlocs
         # chromosome list CSV: one line per chromosome or unloc scaffold, localised = no exactly for unlocs
         csv = ba.assembly_stats.chromosome_name_csv(asm)
